@@ -1,2 +1,2 @@
--- stub: replaced by the family's driver
-def main : IO Unit := IO.println "family msgpack: no driver yet"
+import PrimitivModel.Driver.MsgpackDrv
+def main : IO Unit := Primitiv.Drv.MsgpackDrv.main
